@@ -149,76 +149,77 @@ Section StrategiesProofs.
   Theorem remote_addr_spec remote : remote_addr A parse remote = spec_remote A parse remote.
   Proof. reflexivity. Qed.
 
-  (* ---------------- never panics ---------------- *)
-  Theorem leftmost_no_panic fwd values limit bl : leftmost_non_private A parse fwd values limit bl <> Panic.
-  Proof. rewrite leftmost_spec. unfold spec_leftmost. destruct (find _ _) as [[a|]|]; discriminate. Qed.
+  (* ---------------- every strategy returns an address or an error ---------------- *)
+  Definition ok_or_err (r : result A) : Prop := match r with Ok _ | Err _ => True | _ => False end.
 
-  Theorem rightmost_non_private_no_panic fwd values tr : rightmost_non_private A parse fwd values tr <> Panic.
+  Theorem leftmost_ok_or_err fwd values limit bl : ok_or_err (leftmost_non_private A parse fwd values limit bl).
+  Proof. rewrite leftmost_spec. unfold spec_leftmost. destruct (find _ _) as [[a|]|]; exact I. Qed.
+
+  Theorem rightmost_non_private_ok_or_err fwd values tr : ok_or_err (rightmost_non_private A parse fwd values tr).
   Proof.
     rewrite rightmost_non_private_spec. unfold spec_rightmost_non_private.
-    destruct (find _ _) as [[a|]|]; discriminate.
+    destruct (find _ _) as [[a|]|]; exact I.
   Qed.
 
-  Theorem trusted_count_no_panic fwd values n : rightmost_trusted_count A parse fwd values n <> Panic.
+  Theorem trusted_count_ok_or_err fwd values n : ok_or_err (rightmost_trusted_count A parse fwd values n).
   Proof.
     unfold rightmost_trusted_count.
     rewrite (backward_ip_addr_seq_is A parse parse_no_panic fwd values).
     set (m := if n =? 0 then 2 ^ 64 - 1 else n - 1).
     pose proof (count_fold (rev (entries fwd values)) m) as Hc.
     destruct (fold_stop (count_yield A) _ _) as [[res m'] k]. simpl in Hc. subst res.
-    destruct (nth_error _ _) as [[a|]|]; discriminate.
+    destruct (nth_error _ _) as [[a|]|]; exact I.
   Qed.
 
-  Theorem trusted_range_no_panic fwd values tr : rightmost_trusted_range A parse fwd values tr <> Panic.
+  Theorem trusted_range_ok_or_err fwd values tr : ok_or_err (rightmost_trusted_range A parse fwd values tr).
   Proof.
-    destruct tr as [tr|]; [|discriminate].
-    rewrite trusted_range_spec. unfold spec_trusted_range. destruct (find _ _) as [[a|]|]; discriminate.
+    destruct tr as [tr|]; [|exact I].
+    rewrite trusted_range_spec. unfold spec_trusted_range. destruct (find _ _) as [[a|]|]; exact I.
   Qed.
 
-  Theorem single_no_panic matches : single_ip_header A parse matches <> Panic.
+  Theorem single_ok_or_err matches : ok_or_err (single_ip_header A parse matches).
   Proof.
-    rewrite single_header_last. unfold spec_single. destruct (rev matches) as [|l ?]; [discriminate|].
-    destruct l; [discriminate|]. destruct (parse (a :: l)) eqn:Hp; try discriminate.
+    rewrite single_header_last. unfold spec_single. destruct (rev matches) as [|l ?]; [exact I|].
+    destruct l; [exact I|]. destruct (parse (a :: l)) eqn:Hp; try exact I.
     exfalso. exact (parse_no_panic _ Hp).
   Qed.
 
-  Theorem remote_no_panic remote : remote_addr A parse remote <> Panic.
+  Theorem remote_ok_or_err remote : ok_or_err (remote_addr A parse remote).
   Proof.
-    unfold remote_addr. destruct (parse remote) eqn:Hp; try discriminate.
+    unfold remote_addr. destruct (parse remote) eqn:Hp; try exact I.
     exfalso. exact (parse_no_panic _ Hp).
   Qed.
 
-  Lemma chain_go_no_panic subs : forall errs,
-    Forall (fun s : unit -> result A => s tt <> Panic) subs -> chain_go A subs errs <> Panic.
+  Lemma chain_go_ok_or_err subs : forall errs,
+    Forall (fun s : unit -> result A => ok_or_err (s tt)) subs -> ok_or_err (chain_go A subs errs).
   Proof.
     induction subs as [|s rest IH]; intros errs Hall.
-    - simpl. destruct errs; discriminate.
+    - simpl. destruct errs; exact I.
     - inversion Hall as [|? ? Hs Hrest]; subst. simpl.
-      destruct (s tt) as [a|e| |] eqn:Hr; try discriminate; [apply IH; exact Hrest | congruence].
+      destruct (s tt) as [a|e| |] eqn:Hr; try exact I; try contradiction. apply IH. exact Hrest.
   Qed.
 
   (* ---------------- chain ---------------- *)
   Lemma chain_go_some subs : forall es,
     chain_go A subs (Some es) =
-    match spec_chain A (map (fun s => s tt) subs) with
+    match spec_chain_members A (map (fun s => s tt) subs) with
     | Err e => Err (es ++ e)
     | r => r
     end.
   Proof.
     induction subs as [|s rest IH]; intros es.
     - simpl. rewrite app_nil_r. reflexivity.
-    - simpl chain_go. simpl map. simpl spec_chain. destruct (s tt) as [a|e| |]; try reflexivity.
-      rewrite IH. destruct (spec_chain A _) as [a'|e'| |]; try reflexivity.
+    - simpl chain_go. simpl map. simpl spec_chain_members. destruct (s tt) as [a|e| |]; try reflexivity.
+      rewrite IH. destruct (spec_chain_members A _) as [a'|e'| |]; try reflexivity.
       rewrite app_assoc. reflexivity.
   Qed.
 
-  (* a non-empty chain returns the result of its first member that does not fail,
-     or the joined errors of all members *)
-  Theorem chain_spec subs :
-    subs <> [] -> chain A subs = spec_chain A (map (fun s => s tt) subs).
+  (* a chain returns the result of its first member that does not fail, or the joined
+     errors of all members, or - without members - its own error *)
+  Theorem chain_spec subs : chain A subs = spec_chain A (map (fun s => s tt) subs).
   Proof.
-    destruct subs as [|s rest]; [congruence|]. intros _.
-    unfold chain. simpl chain_go. simpl map. simpl spec_chain.
+    destruct subs as [|s rest]; [reflexivity|].
+    unfold chain, spec_chain. simpl chain_go. simpl map. simpl spec_chain_members.
     destruct (s tt) as [a|e| |]; try reflexivity.
     rewrite chain_go_some. reflexivity.
   Qed.
@@ -247,16 +248,16 @@ Section StrategiesProofs.
   Qed.
 
   Theorem chain_all_errors subs :
-    subs <> [] -> Forall (fun p : unit -> result A => exists e, p tt = Err e) subs ->
+    Forall (fun p : unit -> result A => exists e, p tt = Err e) subs ->
     exists es, chain A subs = Err es.
   Proof.
-    destruct subs as [|p subs]; [congruence|]. intros _ Hall.
+    destruct subs as [|p subs]; [intros _; exists [EChainEmpty]; reflexivity|]. intros Hall.
     inversion Hall as [|? ? [e He] Hrest]; subst. unfold chain. simpl. rewrite He.
     apply chain_go_all_errors. exact Hrest.
   Qed.
 
-  (* the empty chain returns neither an address nor an error *)
-  Theorem chain_empty : chain A [] = NoResult.
+  (* the empty chain reports an error of its own *)
+  Theorem chain_empty : chain A [] = Err [EChainEmpty].
   Proof. reflexivity. Qed.
 
   (* ---------------- anti-spoofing, on the entry list ---------------- *)
